@@ -149,8 +149,24 @@ pub fn strategy_single() -> BoxedStrategy<SingleCase> {
     gen::fmt_and(|fi| gen::narsese(gen::TermOpts { size: 14, depth: 3, ..gen::TermOpts::main(fi) })).prop_map(|(fi, v)| SingleCase { fi, v }).boxed()
 }
 
+/// small scope: C01's enumeration (every constructor / decoration) with uniform spacings 0, 1, 3
+pub fn small_scope() -> Vec<Case> {
+    let mut out = vec![];
+    for (fi, v) in crate::props::c01::small_scope() {
+        out.push(Case { fi, v, gaps: vec![3], fills: vec![1] });
+    }
+    out
+}
+
 pub fn streams() -> Vec<Box<dyn AnyStream>> {
     vec![
+        Box::new(Stream::<Case> {
+            name: "small-scope",
+            quick: 0,
+            thorough: 0,
+            source: Source::Enum(Box::new(|_| Box::new(small_scope().into_iter()))),
+            check: Box::new(check),
+        }),
         Box::new(Stream::<Case> {
             name: "spacings",
             quick: 15_000,
